@@ -469,6 +469,10 @@ CLAIMED = {
 }
 # the former clause-round APPEND texts are folded into the level texts above
 APPEND = {}
+EXTRA_TECH = {
+ "C12": " Since the source-derivation round the run entry is source-derived as well: G12 compiles the tests, arithmetic and literals of run_sampling / _not_termination / execute_iteration / compute_evidence into Gen/RunEntrySrc.lean and Props/C12Source (25 theorems, rfl / decide for every scalar type) pins 13 model definitions (notTerm, contGuard, finalLogz, runLoop, entryBranch, prologue, runFull, ...); call order inside an iteration stays a skeleton table.",
+ "C17": " Since the source-derivation round the StateManager model is source-derived: G22 compiles the bodies of 10 StateManager methods (which value is copied deep or shallow, which is stored as an alias, who receives it) into Gen/StateMgrSrc.lean, elaborated against the flat and the nested heap model; Props/C17Source (45 theorems) proves the step cases compute exactly those terms (numpy/copy semantics in Model/StateMgrPy.lean stay hand-written).",
+}
 NOT_YET = {}
 props = [json.loads(l) for l in open(os.path.join(HERE, "properties.jsonl"))]
 checks, na = [], []
@@ -476,6 +480,7 @@ for p in props:
     i = p["id"]
     if i in CLAIMED:
         tech, text, ref = CLAIMED[i]
+        tech = tech + EXTRA_TECH.get(i, "")
         text = text + APPEND.get(i, "")
         checks.append({
             "property_id": i,
